@@ -5,3 +5,5 @@ import Properties.C19
 #print axioms Hive.C19.pickup_reports
 #print axioms Hive.C19.pickup_wait_range
 #print axioms Hive.C19.dropoff_reports
+#print axioms Hive.C19.run_odometer_energy
+#print axioms Hive.C19.run_entities
